@@ -24,6 +24,8 @@ pub struct Sim {
     /// peers the client asked to disconnect / ban in the last step
     pub last_drops: Vec<PeerIndex>,
     pub last_bans: Vec<PeerIndex>,
+    pub crashed: bool,
+    pub dead: bool,
 }
 
 impl Sim {
@@ -111,6 +113,32 @@ impl Sim {
                 let rec = json!({"ev": ev, "a": args, "st": self.state(), "out": out});
                 self.emit(rec);
                 true
+            }
+            Err(msg) if msg.starts_with("verif-crash") => {
+                // process death at a storage write: every in-memory object is dropped, the store reopened
+                crate::verif_hooks::set(None);
+                self.inbox.clear();
+                let c = self.client.take().unwrap();
+                let reopened = crate::verif::client::guard_val(move || c.restart());
+                match reopened {
+                    Ok(c2) => {
+                        self.client = Some(c2);
+                        let _ = self.collect_out();
+                        let rec = json!({"ev": "Crash", "a": {"during": ev, "label": msg}, "st": self.state(),
+                            "out": {"ban": [], "drop": [], "sent": []}});
+                        self.emit(rec);
+                        self.crashed = true;
+                    }
+                    Err(m2) => {
+                        // the store cannot be opened any more: an abort state
+                        self.panics.push(m2.clone());
+                        self.dead = true;
+                        let rec = json!({"ev": "DeadStore", "a": {"during": ev, "label": msg, "msg": m2}, "sc": self.scenario});
+                        writeln!(self.out, "{}", rec).expect("write trace");
+                        self.lines += 1;
+                    }
+                }
+                false
             }
             Err(msg) => {
                 self.panics.push(msg.clone());
@@ -242,6 +270,8 @@ pub fn new_sim(
         panics: Vec::new(),
         last_drops: Vec::new(),
         last_bans: Vec::new(),
+        crashed: false,
+        dead: false,
     }
 }
 
